@@ -225,7 +225,8 @@ static char *led_readchar(int c, int kmap)
 	}
 	if ((c & 0xc0) == 0xc0) {	/* utf-8 character */
 		buf[0] = c;
-		n = uc_len(buf);
+		/* the length the lead byte announces; the rest is yet to be read */
+		n = ~c & 0x20 ? 2 : (~c & 0x10 ? 3 : (~c & 0x08 ? 4 : 1));
 		for (i = 1; i < n; i++)
 			buf[i] = term_read();
 		buf[n] = '\0';
